@@ -4,6 +4,12 @@ from jaqalpaq.core.block import BlockStatement, LoopStatement
 from jaqalpaq.core.constant import Constant
 from jaqalpaq.core.parameter import AnnotatedValue, Parameter, ParamType
 from jaqalpaq.core.register import Register, NamedQubit
+from jaqalpaq.core.gate import GateStatement
+from jaqalpaq.core.gatedef import AbstractGate
+from jaqalpaq.core.macro import Macro
+from jaqalpaq.core.circuit import Circuit
+from jaqalpaq.core.usepulses import UsePulsesStatement
+from jaqalpaq.core.branch import BranchStatement, CaseStatement
 
 
 @spec
@@ -25,6 +31,9 @@ class AnnotatedEq:
     def ensures_foreign(self, other, result):
         return implies(is_int(other) or is_none(other) or is_str(other) or is_float(other), result == False)
 
+    def ensures_exact(self, other, result):
+        return implies(type_is(self, Parameter) and wf_any(other), is_bool(result) and result == steq(self, other))
+
     raises_only = ()
 
 
@@ -42,22 +51,26 @@ class ConstantEq:
     def ensures_foreign(self, other, result):
         return implies(is_int(other) or is_none(other) or is_str(other) or is_float(other), result == False)
 
+    def ensures_exact(self, other, result):
+        return implies(wf_any(other), is_bool(result) and result == steq(self, other))
+
     raises_only = ()
 
 
 @contract("core.register:NamedQubit.__eq__", props=["C20"])
 class QubitEq:
-    """equal iff name, source register name and index agree"""
+    """equal iff name, source register name and index agree (the index may be a number, a let or a macro parameter)"""
 
     def requires(self, other):
-        return (type_is(self, NamedQubit) and is_str(self._name) and type_is(self._alias_from, Register) and is_str(self._alias_from._name)
-                and is_int(self._alias_index))
+        return type_is(self, NamedQubit) and wf_val(self)
 
     def ensures_same_class(self, other, result):
-        return implies(type_is(other, NamedQubit) and is_str(other._name) and type_is(other._alias_from, Register)
-                       and is_str(other._alias_from._name) and is_int(other._alias_index),
+        return implies(type_is(other, NamedQubit) and wf_val(other) and is_int(self._alias_index) and is_int(other._alias_index),
                        is_bool(result) and result == (self._name == other._name and self._alias_from._name == other._alias_from._name
                                                        and self._alias_index == other._alias_index))
+
+    def ensures_exact(self, other, result):
+        return implies(wf_any(other), is_bool(result) and result == steq(self, other))
 
     def ensures_foreign(self, other, result):
         return implies(is_int(other) or is_none(other) or is_str(other) or is_float(other), result == False)
@@ -67,7 +80,14 @@ class QubitEq:
 
 @spec
 def eq_prim(x) -> bool:
-    return is_int(x) or is_bool(x) or is_float(x) or is_str(x) or is_none(x)
+    """values without the attributes an IR __eq__ reads: numbers, strings, None, lists, dicts"""
+    return is_int(x) or is_bool(x) or is_float(x) or is_str(x) or is_none(x) or isinstance(x, list) or isinstance(x, dict)
+
+
+@spec
+def wf_any(o) -> bool:
+    """the objects that meet in comparisons of IR trees"""
+    return wf_val(o) or wf_tree(o) or eq_prim(o)
 
 
 @contract("core.block:LoopStatement.__eq__", props=["C20"])
@@ -75,34 +95,298 @@ class LoopEq:
     """equal iff the loop counts agree AND the body blocks compare equal as blocks (kind included)"""
 
     def requires(self, other):
-        return (type_is(self, LoopStatement) and is_int(self._iterations) and type_is(self._statements, BlockStatement)
-                and is_bool(self._statements._parallel) and is_bool(self._statements._subcircuit) and is_int(self._statements._iterations)
-                and isinstance(self._statements._statements, list))
+        return type_is(self, LoopStatement) and wf_tree(self)
 
     def ensures_counts(self, other, result):
-        return implies(type_is(other, LoopStatement) and is_int(other._iterations) and self._iterations != other._iterations, result == False)
+        return implies(type_is(other, LoopStatement) and wf_tree(other) and is_int(self._iterations) and is_int(other._iterations)
+                       and self._iterations != other._iterations, result == False)
 
     def ensures_body_is_compared_as_block(self, other, result):
-        return implies(type_is(other, LoopStatement) and is_int(other._iterations) and type_is(other._statements, BlockStatement)
-                       and is_bool(other._statements._parallel) and is_bool(other._statements._subcircuit) and is_int(other._statements._iterations)
+        return implies(type_is(other, LoopStatement) and wf_tree(other)
                        and self._statements._parallel != other._statements._parallel, result == False)
+
+    def ensures_exact(self, other, result):
+        return implies(wf_any(other), is_bool(result) and result == steq(self, other))
 
     def ensures_foreign(self, other, result):
         return implies(eq_prim(other), result == False)
+
+    raises_only = ()
 
 
 @contract("core.block:BlockStatement.__eq__", props=["C20"])
 class BlockEq:
-    """unequal whenever block kind, subcircuit annotation or count differ"""
+    """equal iff block kind, subcircuit annotation and count agree and the statement lists are equal element by element"""
 
     def requires(self, other):
-        return (isinstance(self, BlockStatement) and is_bool(self._parallel) and is_bool(self._subcircuit) and is_int(self._iterations)
-                and isinstance(self._statements, list))
+        return type_is(self, BlockStatement) and wf_tree(self)
 
     def ensures_flags(self, other, result):
-        return implies(isinstance(other, BlockStatement) and is_bool(other._parallel) and is_bool(other._subcircuit) and is_int(other._iterations)
+        return implies(type_is(other, BlockStatement) and wf_tree(other) and is_int(self._iterations) and is_int(other._iterations)
                        and (self._parallel != other._parallel or self._subcircuit != other._subcircuit or self._iterations != other._iterations),
                        result == False)
 
+    def ensures_exact(self, other, result):
+        return implies(wf_any(other), is_bool(result) and result == steq(self, other))
+
     def ensures_foreign(self, other, result):
         return implies(eq_prim(other), result == False)
+
+    raises_only = ()
+
+
+# ---------------------------------------------------------------------------------------------------------------
+# C20, full characterisation: on well-formed IR every __eq__ returns EXACTLY the structural equality steq - the
+# comparison the property describes (numbers by value, names, kinds, indices, counts, block kinds, argument lists in
+# order).  Python's list and dict equality are specified as element-wise == with the identity shortcut CPython
+# applies (seq_eq / dict_eq); the == of the elements is, by modular induction over the finite statement tree, the
+# steq of the elements (each __eq__ is verified against the contracts of the others).
+
+@spec
+def wf_val(v) -> bool:
+    """what stands in argument, index, count and size positions: numbers, lets, macro parameters, qubit references"""
+    if is_int(v) or is_float(v):
+        return True
+    if type_is(v, Constant):
+        return is_str(v._name) and isinstance(v._kind, ParamType) and (is_int(v._value) or is_float(v._value))
+    if type_is(v, Parameter):
+        return is_str(v._name) and isinstance(v._kind, ParamType)
+    if type_is(v, NamedQubit):
+        return (is_str(v._name) and (type_is(v._alias_from, Register) or type_is(v._alias_from, Parameter)) and is_str(v._alias_from._name)
+                and (is_int(v._alias_index) or ((type_is(v._alias_index, Constant) or type_is(v._alias_index, Parameter)) and wf_val(v._alias_index))))
+    return False
+
+
+@spec
+def wf_tree(o) -> bool:
+    """statement trees: gates with well-formed arguments, loops over blocks, blocks of statements"""
+    if type_is(o, LoopStatement):
+        return wf_val(o._iterations) and type_is(o._statements, BlockStatement) and wf_tree(o._statements)
+    if type_is(o, BlockStatement):
+        return (isinstance(o._statements, list) and is_bool(o._parallel) and is_bool(o._subcircuit) and wf_val(o._iterations)
+                and forall_range(len(o._statements), lambda k: wf_tree(o._statements[k])))
+    return (type_is(o, GateStatement) and isinstance(o._parameters, dict) and isinstance(o._gate_def, AbstractGate) and is_str(o._gate_def._name)
+            and forall_range(dict_len(o._parameters), lambda j: wf_val(dict_val_at(o._parameters, j))))
+
+
+@spec
+def steq(a, b) -> bool:
+    """C20: structural equality - what == must compute on IR objects"""
+    if is_int(a) or is_float(a) or is_bool(a):
+        return (is_int(b) or is_float(b) or is_bool(b)) and a == b
+    if is_str(a):
+        return is_str(b) and a == b
+    if is_none(a):
+        return is_none(b)
+    if type_is(a, Constant):
+        return type_is(b, Constant) and a._name == b._name and a._value == b._value
+    if type_is(a, Parameter):
+        return (type_is(b, Parameter) or type_is(b, Constant)) and a._name == b._name and a._kind == b._kind
+    if type_is(a, NamedQubit):
+        return (type_is(b, NamedQubit) and a._name == b._name and a._alias_from._name == b._alias_from._name
+                and steq(a._alias_index, b._alias_index))
+    if type_is(a, GateStatement):
+        return (type_is(b, GateStatement) and a._gate_def._name == b._gate_def._name and dict_len(a._parameters) == dict_len(b._parameters)
+                and forall_range(dict_len(a._parameters), lambda j: steq(dict_val_at(a._parameters, j), dict_val_at(b._parameters, j))))
+    if type_is(a, LoopStatement):
+        return type_is(b, LoopStatement) and steq(a._iterations, b._iterations) and steq(a._statements, b._statements)
+    if type_is(a, BlockStatement):
+        return (type_is(b, BlockStatement) and a._parallel == b._parallel and a._subcircuit == b._subcircuit and steq(a._iterations, b._iterations)
+                and len(a._statements) == len(b._statements)
+                and forall_range(len(a._statements), lambda k: same(a._statements[k], b._statements[k]) or steq(a._statements[k], b._statements[k])))
+    return same(a, b)
+
+
+@spec
+def seq_eq(a, b) -> bool:
+    """Python's list == : same length, and element-wise identical or equal  [function]"""
+    return len(a) == len(b) and forall_range(len(a), lambda k: same(a[k], b[k]) or steq(a[k], b[k]))
+
+
+@contract("core.gate:GateStatement.__eq__.<locals>.are_equal", props=["C20"])
+class ArgEq:
+    """two argument values (None pads the shorter argument list) compare by structural equality; NaN never occurs (reals)"""
+
+    def requires(p0, p1):
+        return (wf_val(p0) or is_none(p0)) and (wf_val(p1) or is_none(p1))
+
+    def ensures(p0, p1, result):
+        return is_bool(result) and result == steq(p0, p1)
+
+    raises_only = ()
+
+
+@contract("core.gate:GateStatement.__eq__", props=["C20"])
+class GateEq:
+    """equal iff the other is a gate statement with the same gate name and pairwise equal arguments in order"""
+
+    def requires(self, other):
+        return (wf_tree(self) and type_is(self, GateStatement) and implies(type_is(other, GateStatement), wf_tree(other))
+                and implies(isinstance(other, AbstractGate), isinstance(other._parameters, list)))
+
+    def ensures_exact(self, other, result):
+        return implies(wf_tree(other) and type_is(other, GateStatement) and dict_len(self._parameters) == dict_len(other._parameters),
+                       is_bool(result) and result == steq(self, other))
+
+    def ensures_arity(self, other, result):
+        return implies(wf_tree(other) and type_is(other, GateStatement) and dict_len(self._parameters) != dict_len(other._parameters),
+                       result == False and not steq(self, other))
+
+    def ensures_other_kinds(self, other, result):
+        return implies((wf_tree(other) or wf_val(other)) and not type_is(other, GateStatement), result == False and not steq(self, other))
+
+    def ensures_foreign(self, other, result):
+        return implies(eq_prim(other), result == False)
+
+    raises_only = ()
+
+
+# ---- the remaining __eq__ methods: header objects ------------------------------------------------------------------
+@spec
+def dict_eq(a, b) -> bool:
+    """Python's dict == : same keys, values identical or equal  [function]"""
+    return (dict_len(a) == dict_len(b)
+            and forall_keys(a, lambda k: has_key(b, k) and (same(dict_lookup(a, k), dict_lookup(b, k)) or hdr_eq(dict_lookup(a, k), dict_lookup(b, k)))))
+
+
+@spec
+def wf_params(ps) -> bool:
+    return isinstance(ps, list) and forall_range(len(ps), lambda k: type_is(ps[k], Parameter) and wf_val(ps[k]))
+
+
+@spec
+def wf_hdr(o) -> bool:
+    """header objects: lets, fundamental registers and aliases (bounds by numbers or lets), macros, gate definitions"""
+    if type_is(o, Constant):
+        return wf_val(o)
+    if type_is(o, Register):
+        return is_str(o._name) and (wf_val(o._size) if o._alias_from is None else (o._size is None and type_is(o._alias_from, Register) and wf_hdr(o._alias_from)))
+    if type_is(o, Macro):
+        return is_str(o._name) and wf_params(o._parameters) and type_is(o._body, BlockStatement) and wf_tree(o._body)
+    return isinstance(o, AbstractGate) and not isinstance(o, Macro) and is_str(o._name) and wf_params(o._parameters)
+
+
+@spec
+def hdr_eq(a, b) -> bool:
+    """C20: structural equality of header objects  [function]"""
+    if type_is(a, Constant):
+        return steq(a, b)
+    if type_is(a, Macro):
+        return type_is(b, Macro) and a._name == b._name and seq_eq(a._parameters, b._parameters) and steq(a._body, b._body)
+    if isinstance(a, AbstractGate):
+        return isinstance(b, AbstractGate) and a._name == b._name and seq_eq(a._parameters, b._parameters)
+    return same(a, b)
+
+
+@contract("core.gatedef:AbstractGate.__eq__", props=["C20"], also_for=["GateDefinition"])
+class GateDefEq:
+    """gate definitions are equal iff name and parameter list (names and kinds, in order) agree"""
+
+    def requires(self, other):
+        return isinstance(self, AbstractGate) and not isinstance(self, Macro) and wf_hdr(self)
+
+    def ensures_exact(self, other, result):
+        return implies(isinstance(other, AbstractGate) and not isinstance(other, Macro) and wf_hdr(other), is_bool(result) and result == hdr_eq(self, other))
+
+    def ensures_foreign(self, other, result):
+        return implies(eq_prim(other), result == False)
+
+    raises_only = ()
+
+
+@contract("core.macro:Macro.__eq__", props=["C20"])
+class MacroEq:
+    """macros are equal iff name, parameter list and body agree"""
+
+    def requires(self, other):
+        return type_is(self, Macro) and wf_hdr(self) and type_is(other, Macro) and wf_hdr(other)
+
+    def ensures_exact(self, other, result):
+        return is_bool(result) and result == hdr_eq(self, other)
+
+    raises_only = ()
+
+
+@contract("core.register:Register.__eq__", props=["C20"])
+class RegisterEq:
+    """registers: names must agree; two fundamental registers are equal iff their sizes are (a let-valued size by name and
+    value); a fundamental register never equals an alias"""
+
+    def requires(self, other):
+        return type_is(self, Register) and wf_hdr(self) and ((type_is(other, Register) and wf_hdr(other)) or eq_prim(other))
+
+    def ensures_names(self, other, result):
+        return implies(type_is(other, Register) and wf_hdr(other) and self._name != other._name, result == False)
+
+    def ensures_fundamental(self, other, result):
+        return implies(type_is(other, Register) and wf_hdr(other) and self._alias_from is None and other._alias_from is None,
+                       is_bool(result) and result == (self._name == other._name and steq(self._size, other._size)))
+
+    def ensures_foreign(self, other, result):
+        return implies(eq_prim(other), result == False)
+
+    raises_only = ("JaqalError",)
+
+
+@contract("core.usepulses:UsePulsesStatement.__eq__", props=["C20"])
+class UsePulsesEq:
+    def requires(self, other):
+        return (type_is(self, UsePulsesStatement) and is_str(self._module) and (self._names is all or is_str(self._names))
+                and ((type_is(other, UsePulsesStatement) and is_str(other._module) and (other._names is all or is_str(other._names))) or eq_prim(other)))
+
+    def ensures_exact(self, other, result):
+        return implies(type_is(other, UsePulsesStatement), is_bool(result) and result == (self._module == other._module and same(self._names, other._names)))
+
+    def ensures_foreign(self, other, result):
+        return implies(eq_prim(other), result == False)
+
+    raises_only = ()
+
+
+@contract("core.circuit:Circuit.__eq__", props=["C20"])
+class CircuitEq:
+    """circuits are equal only if the bodies are structurally equal and the let, macro and register tables are equal as
+    dictionaries (same names, equal objects)"""
+
+    def requires(self, other):
+        return (type_is(self, Circuit) and isinstance(self._constants, dict) and isinstance(self._macros, dict) and isinstance(self._native_gates, dict)
+                and isinstance(self._registers, dict) and isinstance(self._usepulses, list) and type_is(self._body, BlockStatement) and wf_tree(self._body)
+                and (eq_prim(other) or (type_is(other, Circuit) and type_is(other._body, BlockStatement) and wf_tree(other._body) and isinstance(other._constants, dict)
+                                        and isinstance(other._macros, dict) and isinstance(other._native_gates, dict) and isinstance(other._registers, dict)
+                                        and isinstance(other._usepulses, list))))
+
+    def ensures_body(self, other, result):
+        return implies(type_is(other, Circuit) and type_is(other._body, BlockStatement) and wf_tree(other._body) and isinstance(other._constants, dict)
+                       and isinstance(other._macros, dict) and isinstance(other._native_gates, dict) and isinstance(other._registers, dict)
+                       and isinstance(other._usepulses, list),
+                       implies(result == True, steq(self._body, other._body) and dict_eq(self._constants, other._constants)
+                               and dict_eq(self._macros, other._macros) and dict_eq(self._registers, other._registers)))
+
+    def ensures_foreign(self, other, result):
+        return implies(eq_prim(other), result == False)
+
+    raises_only = ()
+
+
+@contract("core.branch:BranchStatement.__eq__", props=["C20"])
+class BranchEq:
+    """branch statements are not part of the property's programs; the contract only keeps == total: a boolean, no exception"""
+
+    def requires(self, other):
+        return type_is(self, BranchStatement) and isinstance(self._cases, list)
+
+    def ensures_foreign(self, other, result):
+        return implies(eq_prim(other), result == False)
+
+    raises_only = ()
+
+
+@contract("core.branch:CaseStatement.__eq__", props=["C20"])
+class CaseEq:
+    def requires(self, other):
+        return type_is(self, CaseStatement) and is_int(self._state) and type_is(self._statements, BlockStatement) and wf_tree(self._statements)
+
+    def ensures_foreign(self, other, result):
+        return implies(eq_prim(other), result == False)
+
+    raises_only = ()
